@@ -538,7 +538,10 @@ def c16_copies(clsname, text, validate):
     else:
         x = getattr(schwifty, clsname)(text, allow_invalid=not validate)
     for name, f in (("copy", copy.copy), ("deepcopy", copy.deepcopy), ("pickle", lambda o: pickle.loads(pickle.dumps(o)))):
-        y = f(x)
+        try:
+            y = f(x)
+        except Exception as exc:  # a copy that raises is a failed copy, not a failed replay
+            return name + " raised " + type(exc).__name__
         if type(y) is not type(x) or y != x or str(y) != str(x):
             return name
         for attr in ("country_code", "bank_code", "branch_code") + (("account_code",) if clsname != "BIC" else ()):
